@@ -1,21 +1,66 @@
 import LdkModel.Driver.Util
 import LdkModel.Model.ChainSync
 /- C20 driver: replays the harness's op lines on the model of lightning-block-sync.
-   ops: tree | block <id> <parent> <height> <work> | client <tip> <cached ids…> | best <id> |
-        clientinit | hidden <ids…> | sched <failing request indices…> | poll <fingerprint> | init <id:height:p1,p2,-,…>… -/
+   ops: tree | block <id> <parent> <height> <chainwork> <bits> <header.work()> <full 0|1> | net <0|1 = Network::Bitcoin> |
+        client <tip> <cached ids…> | best <id> | clientinit | hidden <ids…> |
+        sched <k:kind…> (what the source answers to request k: t|p = Err, hash:<id> = another block, pow = PoW fails,
+          height / work = claimed height / chainwork off by one, merkle = full block with a wrong merkle root) |
+        poll <fingerprint> | init <id:height:p1,p2,-,…>…
+   The source is an `Adv` (raw answers) run through the translated Validate layer (`Adv.toSource`). -/
 namespace Ldk.Driver
 open Ldk Ldk.ChainSync
 
+inductive Lie where
+  | err | other (id : Nat) | pow | height | work | merkle
+deriving Repr
+
 structure C20State where
   tree : Tree := []
+  fulls : List Nat := []
+  bitcoin : Bool := false
   client : Option Client := none
   best : Nat := 0
   hidden : List Nat := []
-  sched : List Nat := []
+  sched : List (Nat × Lie) := []
   lastInit : Option Client := none
 
-def c20Source (st : C20State) : Source :=
-  { tree := st.tree, best := st.best, fails := fun i => st.sched.contains i, hidden := fun h => st.hidden.contains h }
+def rawOf (b : Hdr) (pow : Bool) : RawHdr := ⟨b.hash, b.parent, b.height, b.work, b.bits, b.bwork, pow⟩
+
+/-- the raw answers of the harness's block source: the tree's data unless a lie is scheduled for that request -/
+def c20Adv (st : C20State) : Adv :=
+  { best := fun k => match st.sched.lookup k with
+      | some _ => none
+      | none => some st.best,
+    header := fun k h => match st.sched.lookup k with
+      | some .err => none
+      | some (.other x) => (hdrOf st.tree x).map (rawOf · true)
+      | some .pow => (hdrOf st.tree h).map (rawOf · false)
+      | some .height => (hdrOf st.tree h).map (fun b => { rawOf b true with height := b.height + 1 })
+      | some .work => (hdrOf st.tree h).map (fun b => { rawOf b true with chainwork := b.work + 1 })
+      | some .merkle => none
+      | none => if st.hidden.contains h then none else (hdrOf st.tree h).map (rawOf · true),
+    block := fun k h => match st.sched.lookup k with
+      | some .err => none
+      | some (.other x) => (hdrOf st.tree x).map (fun b => ⟨st.fulls.contains x, b.hash, true, true, true⟩)
+      | some .pow => some ⟨false, h, false, true, true⟩
+      | some .merkle => some ⟨true, h, true, false, true⟩
+      | some _ => none
+      | none => if st.hidden.contains h then none else (hdrOf st.tree h).map (fun b => ⟨st.fulls.contains h, b.hash, true, true, true⟩),
+    bitcoin := st.bitcoin }
+
+def c20Source (st : C20State) : Source := (c20Adv st).toSource st.tree
+
+def parseLie (s : String) : Nat × Lie :=
+  match s.splitOn ":" with
+  | [k, "t"] => (nat! k, .err)
+  | [k, "p"] => (nat! k, .err)
+  | [k, "hash", x] => (nat! k, .other (nat! x))
+  | [k, "pow"] => (nat! k, .pow)
+  | [k, "height"] => (nat! k, .height)
+  | [k, "work"] => (nat! k, .work)
+  | [k, "merkle"] => (nat! k, .merkle)
+  | k :: _ => (nat! k, .err)
+  | [] => (0, .err)
 
 def showNotif : Notif → String
   | .disconnected h ht => s!"D {h} {ht}"
@@ -38,15 +83,17 @@ def c20 : Drv where
   step := fun st ws =>
     match ws with
     | ["tree"] => ({}, "ok")
-    | ["block", i, p, h, w] =>
-      ({ st with tree := { hash := nat! i, parent := nat! p, height := nat! h, work := nat! w } :: st.tree }, "ok")
+    | ["block", i, p, h, w, bits, bw, full] =>
+      ({ st with tree := { hash := nat! i, parent := nat! p, height := nat! h, work := nat! w, bits := nat! bits, bwork := nat! bw } :: st.tree,
+                 fulls := if full == "1" then nat! i :: st.fulls else st.fulls }, "ok")
+    | ["net", b] => ({ st with bitcoin := b == "1" }, "ok")
     | "client" :: tip :: cached =>
       match hdrOf st.tree (nat! tip) with
       | some t => ({ st with client := some ⟨t, cached.filterMap (fun x => hdrOf st.tree (nat! x))⟩ }, "ok")
       | none => (st, "bad-op")
     | ["best", b] => ({ st with best := nat! b }, "ok")
     | "hidden" :: ids => ({ st with hidden := ids.map nat! }, "ok")
-    | "sched" :: ids => ({ st with sched := ids.map nat! }, "ok")
+    | "sched" :: ids => ({ st with sched := ids.map parseLie }, "ok")
     | ["clientinit"] => ({ st with client := st.lastInit }, if st.lastInit.isSome then "ok" else "bad-op")
     | ["poll", _] =>
       match st.client with
